@@ -5,9 +5,9 @@ members and their order/method, manifests naming what exists, main document = th
 (asset paths and EPUB's omitted in-document TOC aside), asset references = the engine's asset table
 >= asset members, stored assets byte-identical to the files, same URL -> same path.
 """
-import io, os, re, json, zipfile, tempfile, shutil, zlib
+import subprocess, io, os, re, json, zipfile, tempfile, shutil, zlib
 import xml.parsers.expat as expat
-from lib import core, gen, gendoc, drv as D
+from lib import core, gen, gendoc, build, drv as D
 
 ID = 'C09'
 UUID = r'[0-9a-fA-F]{8}-[0-9a-fA-F]{4}-[0-9a-fA-F]{4}-[0-9a-fA-F]{4}-[0-9a-fA-F]{12}'
@@ -296,6 +296,60 @@ def diff(a, b):
     return 'first difference at %d: expected %s | got %s' % (i, core.show(a[max(0, i - 60):i + 80]), core.show(b[max(0, i - 60):i + 80]))
 
 
+UUID_RE = re.compile(r'[0-9a-fA-F]{8}-?[0-9a-fA-F]{4}-?[0-9a-fA-F]{4}-?[0-9a-fA-F]{4}-?[0-9a-fA-F]{12}')
+
+
+def members(blob):
+    z = zipfile.ZipFile(io.BytesIO(blob))
+    return sorted((UUID_RE.sub('UUID', n), z.getinfo(n).file_size) for n in z.namelist())
+
+
+def cli_slice(r, s, rng, src, tdir):
+    """the command line tool, given the document by path (bare name, path with a directory part, absolute path), must find the same
+    assets next to the document as the library does when handed that directory"""
+    if b'{{' in src.replace(b'{{TOC}}', b''):
+        return
+    cli = build.build('asan', ('cli',))['cli']
+    fname = rng.choice(['epub', 'bundlezip', 'odt'])
+    fmt = D.FMT[fname]
+    rep = s.call('asan', 'CONVERT', fmt, D.EXT_CLI, 0, 1 | (1 << 4) | (1 << 8), [src, tdir], crash_is_violation=False)
+    r.evaluations += 1
+    if rep is None or rep.status:
+        return
+    try:
+        ref = members(rep.out)
+    except Exception:
+        return
+    doc = os.path.join(tdir, 'cli_doc.md')
+    open(doc, 'wb').write(src)
+    out = os.path.join(tdir, 'cli_out.bin')
+    parent, base = os.path.dirname(tdir), os.path.basename(tdir)
+    forms = [('bare-name', tdir, 'cli_doc.md'), ('relative-with-directory', parent, os.path.join(base, 'cli_doc.md')), ('absolute', parent, doc), ('dot-slash', tdir, './cli_doc.md')]
+    env = dict(os.environ, ASAN_OPTIONS='detect_leaks=0:abort_on_error=0', UBSAN_OPTIONS='print_stacktrace=1')
+    try:
+        for form, cwd, arg in forms:
+            if os.path.exists(out):
+                os.unlink(out)
+            p = subprocess.run([cli, '-t', fname, '-o', out, arg], stdout=subprocess.PIPE, stderr=subprocess.PIPE, cwd=cwd, env=env, timeout=120)
+            r.evaluations += 1
+            r.stats['cli_package_runs'] += 1
+            if p.returncode != 0 or not os.path.exists(out):
+                r.stats['cli run failed (C01/C06 territory)'] += 1
+                continue
+            try:
+                got = members(open(out, 'rb').read())
+            except Exception:
+                r.violate('cli:%s:unreadable' % fname, 'multimarkdown -t %s -o wrote an unreadable archive (%s path)' % (fname, form), dict(source_b64=core.b64(src), form=form))
+                continue
+            if got != ref:
+                r.violate('cli:assets-differ:%s' % form, 'multimarkdown -t %s given the document as a %s path packs different members than the library given the document directory: %s vs %s' %
+                          (fname, form, [g for g in got if g not in ref][:4], [g for g in ref if g not in got][:4]), dict(source_b64=core.b64(src), form=form, format=fname), core.show(src, 400))
+    finally:
+        for f in (doc, out):
+            if os.path.exists(f):
+                os.unlink(f)
+
+
 def work(job):
     seed, lo, hi = job
     r = core.JobResult()
@@ -307,6 +361,8 @@ def work(job):
                 src = gen_src(rng)
                 for fname in ('epub', 'odt', 'bundlezip', 'itmz') + (('textbundle',) if i % 5 == 0 else ()):
                     check_package(r, s, rng, fname, src, tdir, with_dir=rng.random() < 0.75)
+                if i % 8 == 0:
+                    cli_slice(r, s, rng, src, tdir)
                 if b'![' in src:
                     r.distinct.add(core.h64(src))
                 r.stats['documents'] += 1
